@@ -30,6 +30,12 @@ Acts(s) ==
     \cup {[name |-> "InterchainTransfer", caller |-> "alice", id |-> id, dest |-> "ethereum", destAddr |-> "0xdest", amt |-> 1,
            data |-> "none", gas |-> 1, auth |-> au] : id \in {"iA1", "cS"}, au \in Auths}
     \cup {[name |-> "ExampleSend", caller |-> "alice", gas |-> 1, auth |-> au] : au \in Auths}
+    \* `scoped`: the named address signed only the sub-invocations (taking its tokens, paying its gas) as
+    \* separate entries - not the service call made in its name
+    \cup {[name |-> "InterchainTransfer", caller |-> "alice", id |-> id, dest |-> "ethereum", destAddr |-> "0xdest", amt |-> 1,
+           data |-> "none", gas |-> 1, auth |-> {}, scoped |-> {"alice"}] : id \in {"iA1", "cS"}}
+    \cup {[name |-> "DeployRemoteInterchainToken", caller |-> "alice", salt |-> "s1", dest |-> "ethereum", gas |-> 1, auth |-> {}, scoped |-> {"alice"}],
+          [name |-> "ExampleSend", caller |-> "alice", gas |-> 1, auth |-> {}, scoped |-> {"alice"}]}
     \* the service's own address named as caller / payer by an outside caller
     \cup {[name |-> "InterchainTransfer", caller |-> "its", id |-> "cS", dest |-> "ethereum", destAddr |-> "0xdest", amt |-> 1,
            data |-> "none", gas |-> 1, auth |-> au] : au \in {{}, {"mallory"}}}
